@@ -4,9 +4,11 @@ import (
 	"fmt"
 	"math/rand/v2"
 	"os"
+	"sort"
 	"strings"
 	"time"
 
+	nfsv4srv "github.com/buildbarn/bb-remote-execution/pkg/filesystem/virtual/nfsv4"
 	"github.com/buildbarn/go-xdr/pkg/protocols/nfsv4"
 
 	"verif/internal/ev"
@@ -28,6 +30,7 @@ type hist struct {
 	srv     *server
 	clk     *vclock.Clock
 	gen     *countingRNG
+	pool    *nfsv4srv.OpenedFilesPool
 
 	log   []string       // event log: witness and sample
 	shape []string       // seed-independent shape of the history (hash input)
@@ -58,7 +61,7 @@ func (h *hist) witness(extra map[string]any) map[string]any {
 		"case":    h.caseIdx,
 		"version": h.version,
 		"history": append([]string(nil), h.log...),
-		"replay":  fmt.Sprintf("VERIF_SEED=%d ./check C19 quick (case %d is regenerated from the seed and the case index)", h.r.Seed(), h.caseIdx),
+		"replay":  fmt.Sprintf("VERIF_SEED=%d VERIF_C19_CASE=%d VERIF_C19_DEBUG=1 ./check C19 %s --keep (the case is regenerated from the seed and the case index; also ./check C19 --replay <this file>)", h.r.Seed(), h.caseIdx, tierName(h.r)),
 	}
 	for k, v := range extra {
 		w[k] = v
@@ -228,3 +231,54 @@ func (h *hist) sweepLocks(owner nfsv4.LockOwner4, call func(ops []nfsv4.NfsArgop
 	}
 	return sb.String()
 }
+
+func tierName(r *ev.Run) string {
+	if r.Thorough() {
+		return "thorough"
+	}
+	return "quick"
+}
+
+// stateCounts renders the sizes of the programs' state tables (clients,
+// sessions, open-owners, open and lock state records, share and lock
+// counts, hold counts) and of the opened files pool, read through the
+// verif hooks under the programs' own locks.
+func (h *hist) stateCounts() string {
+	counts, known := nfsv4srv.VerifStateCounts(h.srv.prog)
+	for k, v := range nfsv4srv.VerifOpenedFilesPoolCounts(h.pool) {
+		counts[k] = v
+	}
+	keys := make([]string, 0, len(counts))
+	for k := range counts {
+		keys = append(keys, k)
+	}
+	sort.Strings(keys)
+	var sb strings.Builder
+	if !known {
+		sb.WriteString("unknown-program ")
+	}
+	for _, k := range keys {
+		if counts[k] != 0 {
+			fmt.Fprintf(&sb, "%s=%d ", k, counts[k])
+		}
+	}
+	h.r.Count("hook_calls", 1)
+	return sb.String()
+}
+
+// sameState compares two fingerprints; withCounts=false ignores the state
+// table counts (the part behind the marker).
+func sameState(a, b string, withCounts bool) bool {
+	if withCounts {
+		return a == b
+	}
+	cut := func(s string) string {
+		if i := strings.Index(s, countsMarker); i >= 0 {
+			return s[:i]
+		}
+		return s
+	}
+	return cut(a) == cut(b)
+}
+
+const countsMarker = " ## tables: "
